@@ -76,7 +76,33 @@ def spine_rule(g):
     return doc
 
 
+def whole_instruction_cases(g):
+    """instruction-level capture used twice: the second instruction is the first one with its trailing operand(s) dropped,
+    extended, or identical - only the identical one may match (the name stands for the WHOLE instruction)"""
+    m = g.pick(["imul", "shld", "mov", "vaddps"])
+    ops = g.r.sample(["$0x10", "%rbx", "%rax", "%rcx", "%xmm1"], g.int(2, 3))
+    k = g.int(0, 3)
+    second = list(ops) if k == 0 else ops[:-1] if k == 1 else ops[:1] if k == 2 else ops + ["%rdx"]
+    mid = [("401004", "nop", [])] if g.chance(0.5) else []
+    pat = ["&i"] + (["nop"] if mid else []) + ["&i"]
+    insts = [("401000", m, ops)] + mid + [("401008", m, second), ("40100c", "ret", [])]
+    if g.chance(0.3):
+        insts = [insts[2 if mid else 1]] + mid + [insts[0], insts[-1]]       # short one first
+        insts = [("%x" % (0x401000 + 4 * i), mn, o) for i, (_, mn, o) in enumerate(insts)]
+    return {"pattern": pat}, insts, "whole-instruction-%d" % k
+
+
 def run(ctx, factor):
+    rep = ctx.report
+    for _ in range(ctx.budget(30, 1000) * factor):
+        doc, insts, tag = whole_instruction_cases(ctx.g)
+        o = patdiff.observe(ctx, doc, insts, modes=("bool", "all", "first"))
+        usable = patdiff.correspondence(ctx, o)
+        if usable:
+            patdiff.spec_verdict(ctx, o)
+        rep.case(patdiff.case_of(o), usable, tags=[tag])
+        if rep.violations and factor > 1:
+            return
     ctx.report.rule = ("rules with 1-5 capture names (&i,&j instruction level; &a,&b,&c operand level), definitions on "
                        "the spine in any order of first use, references at top level and inside $or/$and/$not/"
                        "$and_any_order/times groups; listings realised with consistent bindings, then perturbed "
